@@ -465,6 +465,100 @@ def run(ctx):
                               {"input": i, "run_1": o["runs"][0], "run_%d" % k: got})
                 break
     ctx.extra["synthetic_graphs"] = len(sins)
+    # ---- part 4: HISTORIES of Runs with different, overlapping root sets on one executor. What a Run reports must not
+    # depend on what the executor had memoised before it (which tasks were cache hits, who computed them first, whether
+    # they were still pending when asked for): the report of every step equals the report of the same Run on a fresh
+    # executor. Evictions between the steps included.
+    hins = []
+    for par in (1, 2, 8):      # two roots over one erroneous dependency, asked for one after the other, together, and again
+        hins.append({"mode": "synthhist", "par": par,
+                     "nodes": [{"name": "aaa", "n": 1, "level": 2, "deps": ["ccc"]}, {"name": "bbb", "n": 1, "level": 2, "deps": ["ccc"]},
+                               {"name": "ccc", "n": 2, "level": 2, "deps": ["zzz"]}, {"name": "zzz", "n": 1, "level": 3, "deps": []}],
+                     "history": [{"roots": ["aaa"]}, {"roots": ["bbb"]}, {"roots": ["aaa", "bbb"]}, {"roots": ["bbb"], "evict": ["zzz"]},
+                                 {"roots": ["aaa"]}]})
+        hins.append({"mode": "synthhist", "par": par,
+                     "nodes": [{"name": "aaa", "n": 1, "level": 2, "deps": ["ccc"]}, {"name": "bbb", "n": 1, "level": 2, "deps": ["ccc"]},
+                               {"name": "ccc", "n": 2, "level": 2, "deps": []}],
+                     "history": [{"roots": ["aaa", "bbb"]}, {"roots": ["bbb"]}, {"roots": ["aaa"]}]})
+    for _ in range(ctx.budget(300, 6000)):
+        names = rng.shuffle(pool)[:rng.range(2, 7)]
+        nodes = []
+        for k, nm in enumerate(names):
+            deps = [d for d in names[k + 1:] if rng.chance(1, 2)]
+            nodes.append({"name": nm, "n": rng.choice([0, 1, 1, 2, 3, 5]), "level": rng.choice([2, 2, 3, 4]), "deps": deps})
+        hist = []
+        for _k in range(rng.range(2, 6)):
+            roots = [nm for nm in names if rng.chance(1, 3)] or [rng.choice(names)]
+            st = {"roots": rng.shuffle(roots)}
+            if hist and rng.chance(1, 4):
+                st["evict"] = [nm for nm in names if rng.chance(1, 3)] or [names[-1]]
+            hist.append(st)
+        hins.append({"mode": "synthhist", "par": rng.choice([1, 2, 4, 8]), "nodes": nodes, "history": hist})
+    houts = ctx.impl("canon", hins, shards=min(NCPU, 8))
+    for i, o in zip(hins, houts):
+        if "crash" in o or "panic" in o or "err" in o:
+            ctx.count(("synthhist", json.dumps(i, sort_keys=True)), True, "synth-history:failed")
+            ctx.notes.append("synthetic history failed (not a determinism verdict): %s" % json.dumps(o)[:300])
+            continue
+        ctx.count(("synthhist", json.dumps(i, sort_keys=True)), any(st["fresh"] for st in o["steps"]), "synth-history")
+        ctx.traces += 2 * len(o["steps"])
+        for k, st in enumerate(o["steps"]):
+            if st["warm"] != st["fresh"]:
+                ctx.violation("report-differs-warm-vs-fresh-executor",
+                              "synthetic query graph: step %d of a history of Runs on one executor reports different diagnostics than the same Run "
+                              "on a fresh executor (all messages are distinct, so the canonical order is unique)" % (k + 1),
+                              {"input": i, "step": k + 1, "roots": i["history"][k]["roots"], "warm": st["warm"], "fresh": st["fresh"],
+                               "missing_on_warm": [x for x in st["fresh"] if x not in st["warm"]],
+                               "extra_on_warm": [x for x in st["warm"] if x not in st["fresh"]]})
+                break
+    shared_bad = 'syntax = "proto3";\npackage p;\nmessage C { Missing m = 1; int32 x = 1; }\n'
+    imp = 'syntax = "proto3";\npackage p;\nimport "c.proto";\nmessage %s { C c = 1; %s }\n'
+    cfiles = [{"path": "a.proto", "text": imp % ("A", "")}, {"path": "b.proto", "text": imp % ("B", "Nope n = 2;")},
+              {"path": "c.proto", "text": shared_bad}]
+    chins = []
+    for par in (1, 4):
+        chins.append({"mode": "compilehist", "par": par, "files": cfiles,
+                      "history": [{"kind": "ir", "paths": ["a.proto"]}, {"kind": "ir", "paths": ["b.proto"]},
+                                  {"kind": "link", "paths": ["a.proto", "b.proto"]}, {"kind": "ir", "paths": ["b.proto"], "evict": ["c.proto"]},
+                                  {"kind": "link", "paths": ["b.proto"]}]})
+        chins.append({"mode": "compilehist", "par": par, "files": cfiles,
+                      "history": [{"kind": "ir", "paths": ["a.proto", "b.proto"]}, {"kind": "ir", "paths": ["b.proto"]},
+                                  {"kind": "link", "paths": ["a.proto"]}]})
+    for _ in range(ctx.budget(36, 1500)):
+        files, _ws = gen_workspace(rng)
+        paths = [f["path"] for f in files]
+        hist = []
+        for _k in range(rng.range(2, 4)):
+            st = {"kind": rng.choice(["ir", "ir", "link"]), "paths": rng.shuffle([p for p in paths if rng.chance(1, 3)] or [rng.choice(paths)])}
+            if hist and rng.chance(1, 5):
+                st["evict"] = [rng.choice(paths)]
+            hist.append(st)
+        chins.append({"mode": "compilehist", "par": rng.choice([1, 2, 8]), "files": files, "history": hist})
+    chouts = ctx.impl("canon", chins, shards=min(NCPU, 8), timeout=1500)
+    for i, o in zip(chins, chouts):
+        if "crash" in o or "panic" in o or "err" in o:
+            ctx.count(("compilehist", json.dumps(i, sort_keys=True)), True, "compile-history:failed")
+            ctx.notes.append("compile history failed (not a determinism verdict): %s" % json.dumps(o)[:300])
+            continue
+        ctx.count(("compilehist", json.dumps(i, sort_keys=True)), o["n"] > 0, "compile-history:%s" % ("diagnostics" if o["n"] else "clean"))
+        ctx.traces += 2 * len(o["steps"])
+        for k, st in enumerate(o["steps"]):
+            if st["same"]:
+                continue
+            if st["warm_full"] == st["fresh_full"]:
+                ctx.violation("rendering-differs", "same diagnostics, different rendered text (warm vs fresh executor)",
+                              {"input": i, "step": k + 1, "report_warm": st["warm_render"], "report_fresh": st["fresh_render"]})
+                continue
+            for key, what, detail in classify_diff(i["files"], st["fresh_full"], st["warm_full"]):
+                if key in ("report-content-differs", "report-order-differs"):
+                    key = "report-differs-warm-vs-fresh-executor"
+                    what = ("the Run reports different diagnostics on an executor that had memoised other queries before than on a fresh executor "
+                            "(a = fresh, b = warm)")
+                ctx.violation(key, "step %d of a history of Runs on one executor vs the same Run on a fresh executor: %s" % (k + 1, what),
+                              {"input": i, "step": k + 1, "query": i["history"][k], "report_fresh": st["fresh_render"],
+                               "report_warm": st["warm_render"], "detail": detail})
+            break
+    ctx.extra["run_histories"] = {"synthetic": len(hins), "compile": len(chins)}
     ctx.extra["compile"] = {"workspaces": len(wss), "runs": ctx.traces, "diagnostics_seen": ndiag,
                             "adjacent_pairs_equal_on_all_six_keys_and_identical": ties_same,
                             "adjacent_pairs_equal_on_all_six_keys_but_different": ties_distinct,
@@ -478,4 +572,6 @@ def run(ctx):
                 "(2) workspaces: every ir/testdata .proto, random combinations of them, and generated invalid multi-file workspaces (duplicate symbols "
                 "across files, extension number clashes, missing/cyclic/duplicate imports, unknown types, syntax damage), each compiled with "
                 "parallelism 1..8 (quick tier: 1, 2, 4, 8) x %d fresh executors; on the first executor the same queries are run three more times (same session, all cache hits, no eviction) with an unrelated Run (File of any.proto) and a related one (AST of the first file) in between; rendered report and every diagnostic compared element-wise. (3) synthetic query graphs (2..7 tasks, 0..9 distinct diagnostics each, reported before and after resolving dependencies): a fresh-executor reference and four Runs on one executor with a Run of other roots in between, all reports equal. "
+                "(4) histories of 2..5 Runs with different, overlapping root sets on ONE executor (synthetic graphs; real workspaces through IR queries per file and Link queries over "
+                "sub-workspaces, one session), evictions in between, parallelism 1..8: the report of every step equals the report of the same Run on a fresh executor. "
                 "distinct = distinct input; non-trivial = >= 2 diagnostics in the list / >= 1 diagnostic reported" % reps)
